@@ -494,7 +494,11 @@ impl Drop for Slab {
 
         // If any drop() panicked, re-throw the first panic we caught now that we've cleaned up.
         if let Some(panic) = first_panic {
-            resume_unwind(panic);
+            // If we are already unwinding (e.g. an earlier slab of the same pool re-threw a
+            // destructor panic), a second panic would abort the process: drop it instead.
+            if !thread::panicking() {
+                resume_unwind(panic);
+            }
         }
 
         // We do this check at the end so we clean up the memory first.
